@@ -271,6 +271,10 @@ func trieDrive(args []string) error {
 			maxLen = 12 + r.Intn(60)
 		}
 		nops := maxOps/4 + r.Intn(maxOps-maxOps/4+1)
+		if sid%16 == 7 { // ... and beyond what a byte can count (few operations: every observation lists every member)
+			maxLen = []int{300, 256, 700, 257, 255}[(sid/16)%5]
+			nops = min(nops, 40)
+		}
 		randStr := func(allowEmpty bool) []byte {
 			n := r.Intn(maxLen + 1)
 			if n == 0 && !allowEmpty {
